@@ -198,7 +198,13 @@ func geom2Shp(g geom.Geom) (shp.Shape, error) {
 	case geom.Polygon:
 		return geom2polygon(g.(geom.Polygon)), nil
 	case *geom.Bounds:
-		return geom2polygon(g.(*geom.Bounds).Polygons()[0]), nil
+		// Close the ring here instead of leaving it to geom2polygon, which
+		// takes the four corners of a box of zero height for a closed ring.
+		b := g.(*geom.Bounds)
+		p := shp.Polygon(*shp.NewPolyLine([][]shp.Point{{
+			shp.Point(b.Min), {X: b.Max.X, Y: b.Min.Y}, shp.Point(b.Max), {X: b.Min.X, Y: b.Max.Y}, shp.Point(b.Min),
+		}}))
+		return &p, nil
 	case geom.LineString:
 		return geom2polyLine(geom.MultiLineString{g.(geom.LineString)}), nil
 	case geom.MultiLineString:
